@@ -558,3 +558,60 @@ func init() {
 		assumptions: commonAssumptions,
 	}
 }
+
+func specJobs(tier string, crc int) []*Job {
+	var js []*Job
+	add := func(tpl, ln, pn, idv, cfg, skip, cs int) {
+		js = append(js, &Job{Module: "mcap", Harness: "VC05Layout", Params: P("tpl", tpl, "ln", ln, "pn", pn, "idv", idv, "cfg", cfg, "skip", skip, "cs", cs, "crc", crc), TimeoutS: 1800})
+	}
+	addc := func(n, per, tail, cfg, skip int) {
+		js = append(js, &Job{Module: "mcap", Harness: "VC05Chunks", Params: P("n", n, "per", per, "tail", tail, "cfg", cfg, "skip", skip, "crc", crc), TimeoutS: 900})
+	}
+	if tier == "quick" {
+		for _, tpl := range []int{0, 1, 5, 6, 7} {
+			add(tpl, 1, 2, 0, 3, 0, 1)
+			add(tpl, 1, 2, 0, 2, 1000+(16|32|128), 1000)
+			add(tpl, 1, 2, 1, 1, 1000+(1|64|128), 1000)
+		}
+		add(0, 1, 2, 0, 3, -1, 1000)
+		add(3, 3, 5, 0, 7, 0, 1)
+		add(6, 0, 0, 0, 3, 0, 60)
+		add(2, 1, 2, 1, 3|8, 0, 1)
+		addc(3, 1, 0, 2, 0)
+		addc(3, 2, 1, 2, 1000+(1|64))
+		addc(4, 2, 0, 0, 0)
+		addc(2, 2, 1, 6, 0)
+		return js
+	}
+	for tpl := 0; tpl <= 7; tpl++ {
+		for _, lp := range [][2]int{{0, 0}, {1, 2}, {3, 5}} {
+			for _, c := range [][2]int{{3, 1}, {3, 60}, {3, 100000}, {2, 1}, {1, 1}, {0, 1}, {7, 1}, {3 | 8, 1}} {
+				skip := 0
+				if lp[0] == 1 {
+					skip = -1
+				}
+				add(tpl, lp[0], lp[1], 0, c[0], skip, c[1])
+			}
+		}
+		add(tpl, 1, 2, 1, 3, 0, 1)
+	}
+	for n := 1; n <= 5; n++ {
+		for per := 1; per <= 3; per++ {
+			for tail := 0; tail <= 1; tail++ {
+				addc(n, per, tail, 2, 1000+(1|64))
+				addc(n, per, tail, 4, 0)
+			}
+		}
+	}
+	return js
+}
+
+func init() {
+	specBounds := map[string]any{
+		"quick":    map[string]any{"templates": "T0,T1,T5,T6,T7 under 3 option sets (one chunk per message / one chunk / unchunked; 3 Skip* flags symbolic each), T0 with all 8 Skip* flags symbolic, T3 with xor codec, T6 at chunk size 60, T2 with SkipMagic", "chunk_files": "2-4 messages on two channels, 1-2 per chunk, all log/publish times symbolic, with/without a chunk that holds only a channel record", "symbolic": "every string/payload byte, times, sequence numbers, the listed flags", "oracle": "a decoder written from the specification only (zz_verif_spec.go), executed symbolically on the writer's real output"},
+		"thorough": map[string]any{"templates": "T0-T7 x 3 length classes x 8 option sets; all 8 Skip* flags symbolic at the middle length class", "chunk_files": "1-5 messages x 1-3 per chunk x trailing channel-only chunk, none and xor codec"},
+	}
+	checkTable["C05"] = &checkSpec{needEnd: true, jobs: func(tier string) []*Job { return specJobs(tier, 0) }, bounds: specBounds, outside: outsideCommon, assumptions: commonAssumptions}
+	checkTable["C06"] = &checkSpec{needEnd: true, jobs: func(tier string) []*Job { return specJobs(tier, 1) }, bounds: specBounds, outside: outsideCommon,
+		assumptions: append([]string{"CRC-32 is an uninterpreted fold (crc_step per byte, crc(empty)=0): stored and recomputed values are equal under every interpretation exactly when the writer fed the specified bytes in order; solver counterexamples are replayed with the real CRC-32"}, commonAssumptions...)}
+}
